@@ -1,6 +1,9 @@
 package main
 
-import "verif/layera"
+import (
+	"verif/layera"
+	"verif/layerb"
+)
 
 func init() {
 	propRunners["C14"] = runC14
@@ -26,5 +29,14 @@ func runC14(opt *Options) int {
 			"pkgload resolving names to objects is outside this kernel",
 		},
 	}
-	return lr.finish(lr.run(), nil)
+	// Layer B leg (generation outcomes, not a solver verdict): which functions and declarations whole runs accept
+	lb := &lbRun{Opt: opt, Convs: layerb.FamilySignature(opt.Thorough()), Check: func(pc *layerb.PathCtx) {}, Bounds: layerb.Bounds{}, NoEvidence: true, Rule: lbRule, Assume: lbAssume, CaseBase: 200}
+	lbrc := lb.finish(lb.runNoExplore(), "translation_validation", nil)
+	rc := lr.finish(lr.run(), map[string]interface{}{"accept_reject_programs": map[string]interface{}{
+		"programs": len(lb.Convs), "note": "whole runs of the goverter binary: unexported default / map|FUNC / extend functions versus the output package, declarations with a wrong shape; rejected-but-valid and accepted-but-invalid programs are violations; emitted code of accepted programs is type-checked",
+		"rejected_expected_success": lb.LastCov["generation_rejected_expected_success"], "accepted_expected_failure": lb.LastCov["generation_accepted_expected_failure"]}})
+	if rc == 0 {
+		return lbrc
+	}
+	return rc
 }
